@@ -456,6 +456,25 @@ def rule_pending(ctx, F):
         ctx.gate("P8", fn, pops, [("a pop happens only for a pending entry", "iterator->is_pending", True), ("…once one subtree was counted", "iterator->subtree_count >= 1", True)], accept_desc="popping the pending subtree")
 
 
+def rule_fragile_state(ctx, F):
+    """P10: a node built under ambiguity is fragile *and* carries no parse state.  In ts_parser__reduce the
+    real state is recorded only for a node reduced unambiguously by a single version; the fragile branch
+    stores TS_TREE_STATE_NONE.  (Reuse tests the fragile flags; change detection tests the state.)"""
+    fn = ctx.need_fn(F, "ts_parser__reduce", "P10")
+    if not fn:
+        return
+    real = [pt for pt, n in find(fn, "parent.ptr->parse_state = state")]
+    none = [pt for pt, n in find(fn, "parent.ptr->parse_state = 65535")] + [pt for pt, n in find(fn, "parent.ptr->parse_state = TS_TREE_STATE_NONE")]
+    frag = [pt for pt, n in find(fn, "parent.ptr->fragile_left = 1")]
+    if not real or not none or not frag:
+        ctx.bad("P10", "ts_parser__reduce:state-and-fragility", "ts_parser__reduce no longer has the three stores (real parse state / TS_TREE_STATE_NONE / fragile flags): found %d/%d/%d" % (len(real), len(none), len(frag)))
+        return
+    ctx.gate("P10", fn, real, [("the real parse state is recorded only for a non-fragile reduction", "is_fragile", False),
+                               ("…popped from a single path", "pop.size > 1", False),
+                               ("…while a single version existed", "initial_version_count > 1", False)], accept_desc="recording the parse state")
+    ctx.after("P10", "ts_parser__reduce:fragile-node-has-no-state", fn, frag, none, "a node marked fragile gets TS_TREE_STATE_NONE", stop_pts=[pt for pt, n in find(fn, "parent.ptr->dynamic_precedence += dynamic_precedence")])
+
+
 def rule_lookahead_end(ctx, F):
     """P9: the text examined for a node ends at its end + look-ahead bytes — or, when that reaches the end of
     the old document (the node was lexed against end-of-input), at infinity: a range included later on
@@ -532,6 +551,7 @@ def run(ctx):
         rule_diff_cursor(ctx, F)
         rule_pending(ctx, F)
         rule_lookahead_end(ctx, F)
+        rule_fragile_state(ctx, F)
     import rsrules
     rsrules.c01_rust(ctx)
     return ctx.finish(
